@@ -462,7 +462,7 @@ BOUNDED = {
                  what="the same decider on a larger universe: prefixes up to length 3 over {string, number}, optional rest; `a <: b | c` for all 45^3 triples and `a <: b | c | d` with thinned negatives; item types string | number as well, prefixes up to length 2 (52 shapes, all triples); the negatives converted before the positive; 483235 questions (three negatives in every order over the union-item shapes too), against brute force over all lists of length <= 5"),
             dict(family="idxsig", obligation="mapping_dnf/bounded-standin/idxsig.dnf_mapping_is_empty",
                  known_cases="contracts/known_idxsig_cases.txt",
-                 what="the object decider on index signatures with a pattern key domain: `S(v) <: B` for the 19 exact objects over the keys a, xa, 1 with values 1 / \"s\" against {[k: K]: T}, K in {string, `x${string}`}, T in {string, number}, and unions / intersections of two of them (refused intersections skipped); oracle: every property whose key lies in K has a value in T; then the same targets against LEFT types that are index signatures themselves ({[k: K]: T'}, T' also string | number), brute force over the 27 objects with the keys a, xa, 1; 628 questions"),
+                 what="the object decider on index signatures with a pattern key domain: `S(v) <: B` for the 19 exact objects over the keys a, xa, 1 with values 1 / \"s\" against {[k: K]: T}, K in {string, `x${string}`}, T in {string, number}, and unions / intersections of two of them (refused intersections skipped); oracle: every property whose key lies in K has a value in T; then the same targets against LEFT types that are index signatures themselves ({[k: K]: T'}, T' also string | number), brute force over the 27 objects with the keys a, xa, 1; then three members on the right and a declared property next to the left signature; 1012 questions"),
             dict(family="mapneg", obligation="mapping_dnf/bounded-standin/mapneg.dnf_mapping_is_empty",
                  known_cases="contracts/known_mapneg_cases.txt",
                  what="dnf_mapping_is_empty / check_mapping_empty (assumed per-clause steps of the object decider): `A <: B | C` for objects with properties a, b (absent / required / optional, string or number) and an optional index signature over `string` or over the keys \"a\" | \"c\" (TypeScript-valid shapes only), against brute force over the 27 objects with keys a, b, c; exact reading on the left, structural on the right"),
